@@ -17,7 +17,7 @@ import warnings
 
 from ..engine import REPO
 
-FORMATS = ["xyz", "sdf", "mol2", "pdb", "cube"]
+FORMATS = ["xyz", "sdf", "mol2", "pdb", "cube", "gromacs"]
 EXT = {"xyz": (".xyz",), "sdf": (".sdf",), "mol2": (".mol2",), "pdb": (".pdb",), "cube": (".cube", ".cub"),
        "gromacs": (".gro",)}
 CLASSES = ["ValueError", "IndexError", "KeyError", "StopIteration", "TypeError", "LoadError", "OverflowError",
@@ -232,6 +232,17 @@ def _generated(fmt: str) -> list[tuple[str, str]]:
                        "  1.0E-01  2.0E-01  3.0E-01\n  4.0E-01  5.0E-01  6.0E-01\n"),
             ("gen-noatom", "t\n\n 0 0 0 0\n 1 1 0 0\n 1 0 1 0 trailing\n 2 0 0 1\n 1.5 -2.5 extra\nmore\n"),
             ("gen-zero", "t\n\n 1 0 0 0\n 0 1 0 0\n 4 0 1 0\n 4 0 0 1\n 6 0.0 0 0 0\n"),
+        ],
+        "gromacs": [
+            ("gen-vel", "water, t= 1.5 step= 3\n    3\n"
+                        "    1WATER  OW1    1   0.126   1.624   1.679  0.1227 -0.0580  0.0434\n"
+                        "    1WATER  HW2    2   0.190   1.661   1.747  0.8085  0.3191 -0.7791\n"
+                        "    1WATER  HW3    3   0.177   1.568   1.613 -0.9045 -2.6469  1.3180\n"
+                        "   1.82060   1.82060   1.82060\n"),
+            ("gen-novel", "no time\n 2\n    1SOL     OW    1   1.0000   2.0000   3.0000\n"
+                          "    1SOL    HW1    2   1.1000   2.1000   3.1000\n"
+                          "   1.0 2.0 3.0 0.0 0.0 0.1 0.0 0.2 0.3\n"),
+            ("gen-zero", "t=0\n0\n 1 1 1\n"),
         ],
         "sdf": [
             ("gen-water", "water\n  iodata\n\n  3  2  0     0  0  0  0  0  0999 V2000\n"
